@@ -18,7 +18,7 @@ REQUIRED_THEOREMS = ['dby_is_sum_of_year_lengths', 'tflag_decodes_true_instant',
                      'synth_decodes_to_attr_times', 'attr_times_arith', 'atv_decodes_to_flags',
                      'cf_standard_inverse', 'atv_tstep_ok', 'atv_tstep_counterexample',
                      'yearlike_drops_time_of_day']
-RULE = ('kinds: tflag (TFLAG variable, valid flags from start+i*step incl. day/year/leap roll-overs, -635 dates, '
+RULE = ('[tau: GEOS-Chem tau0 / tau1 hours since 1985 incl. fractional hours through getTimes, coordutil.gettimes and gettimebnds; getTimes(datetype=datetime64) against getTimes(); irregular axes whose first step equals the mean step] kinds: tflag (TFLAG variable, valid flags from start+i*step incl. day/year/leap roll-overs, -635 dates, '
         'bounds with/without TSTEP attr), attrs (SDATE/STIME/TSTEP only), synth (ioapi updatetflag), cf ("unit '
         'since ref" with 20 reference spellings incl. time zones and rejected ones, units days/hours/minutes/'
         'seconds/weeks, calendars standard/gregorian/proleptic_gregorian/noleap/365_day/all_leap/366_day, '
@@ -120,6 +120,12 @@ def _cf_case(rng):
         start = Fraction(rng.randint(0, span // 7))
     step = rng.choice([1, 1, 2, 24, Fraction(1, 2), Fraction(3, 8), 365])
     vals = [start + step * i for i in range(n)]
+    if n >= 4 and rng.random() < 0.15:
+        # an irregular axis whose FIRST step equals (last - first) / (n - 1): a regular series with displaced records inside
+        inner = sorted(rng.sample(range(1, 4 * (n - 2) + 1), n - 3))
+        offs = [0, 4] + [4 + x for x in inner] + [4 * (n - 1)]
+        if len(set(offs)) == n and offs != [4 * i for i in range(n)]:
+            vals = [start + step * Fraction(o, 4) for o in offs]
     # 'tbgap': a time_bounds variable whose cells are not contiguous (daytime-only windows, stacked episodes)
     bnd = rng.choice(['none', 'none', 'approx', 'tb', 'tbgap']) if n >= 2 else 'none'
     tdt = 'd'
@@ -181,6 +187,14 @@ def gen(rng, tier):
                             pre=rng.choice([None, None, 'attrs', 'args'])))
         elif r < 8:
             out.append(_cf_case(rng))
+        elif r == 8 and i % 20 == 8:
+            # GEOS-Chem time stamps: tau0 / tau1 in hours since 1985-01-01 00:00 UTC, also with fractional hours (20- and
+            # 30-minute series, hourly records on the half hour); judged by the oracle (plain datetime arithmetic)
+            n = rng.randint(1, 5)
+            step = rng.choice([Fraction(1), Fraction(24), Fraction(1, 2), Fraction(1, 4), Fraction(3, 2), Fraction(744)])
+            start = Fraction(rng.choice([0, 140256, 157800, 306816])) + rng.choice([0, 0, Fraction(1, 2), Fraction(1, 4)])
+            out.append(dict(kind='tau', tau0=[lib.show_rat(start + step * k) for k in range(n)],
+                            tau1=[lib.show_rat(start + step * (k + 1)) for k in range(n)], bounds=rng.random() < 0.5))
         else:
             nt = rng.randint(1, 5)
             sd, st, T, fl = _flags(rng, nt)
@@ -228,6 +242,18 @@ def impl(case):
                 res['mutated'] = bool((f.variables['TFLAG'][:] != before).any())
                 if -635 not in [d for d, t in case['flags']]:
                     res['gettimes'] = _times_out(coordutil.gettimes(f))
+                return res
+            if k == 'tau':
+                f = _pfile()
+                n = len(case['tau0'])
+                f.createDimension('time', n)
+                for key in ('tau0', 'tau1'):
+                    v = f.createVariable(key, 'd', ('time',))
+                    v[:] = [float(Fraction(x)) for x in case[key]]
+                    v.units = 'hours since 1985-01-01 00:00:00 UTC'
+                res = dict(times=_times_out(f.getTimes(bounds=case['bounds'])), gettimes=_times_out(coordutil.gettimes(f)))
+                tb = coordutil.gettimebnds(f)
+                res['bnds'] = [_times_out(list(row)) for row in tb]
                 return res
             if k == 'attrs':
                 f = _pfile()
@@ -306,6 +332,13 @@ def _impl_cf(case):
     ts = f.getTimes(bounds=case['bnd'] != 'none')
     res['times'] = _times_out(ts)
     tsu = [t.astimezone(dt.timezone.utc) if t.tzinfo is not None else t for t in ts]
+    try:
+        # the optional numpy output: the same instants (numpy datetimes are UTC)
+        t64 = f.getTimes(bounds=case['bnd'] != 'none', datetype='datetime64[us]')
+        res['dt64'] = [int(x) for x in np.asarray(t64).astype('datetime64[us]').astype('int64').tolist()]
+        res['dt64_want'] = [int((_inst(t) - _inst(dt.datetime(1970, 1, 1))) * 1000000) for t in ts]
+    except Exception as e:
+        res['dt64'] = 'err ' + type(e).__name__
     res['fields'] = [[t.year, t.month, t.day, t.hour, t.minute, t.second, t.microsecond] for t in tsu]
     if case['bnd'] == 'none':
         try:
@@ -379,6 +412,8 @@ def to_line(case, res):
             vals = vals + [lib.show_rat(Fraction(vals[-1]) + step)]
             bnd = 'none'
         return 'c12 cf %s %s %s %s %s' % (case['unit'], cal, ','.join(map(str, ref)), lib.show_list(vals), bnd)
+    if k == 'tau':
+        return 'c12 attrs 1970001 0 10000 1 0'       # no model question (plain hour arithmetic): judged by the oracle
     if k == 'atv':
         if case['flags']:
             return 'c12 atvflags %s' % ','.join('%d:%d' % (a, b) for a, b in case['flags'])
@@ -389,6 +424,8 @@ def to_line(case, res):
 def agree(case, out, res):
     toks = out.split(' ')
     k = case['kind']
+    if k == 'tau':
+        return None
     if 'err' in res:
         if k == 'cf' and res.get('ref') is None:
             return None
@@ -442,6 +479,18 @@ def oracle(case, res):
         if k == 'tflag' and case['bounds'] and case.get('tstep') is None and len(case['flags']) < 2:
             return None     # no interval can be derived from a single flag
         return 'raised %s %s' % (res['err'], res.get('msg'))
+    if k == 'tau':
+        e85 = _inst(dt.datetime(1985, 1, 1))
+        w0 = [e85 + Fraction(x) * 3600 for x in case['tau0']]
+        w1 = [e85 + Fraction(x) * 3600 for x in case['tau1']]
+        got = [Fraction(x) for x in res['times']]
+        if got != w0 + ([w1[-1]] if case['bounds'] else []):
+            return 'tau0 %s decoded to %s, hours since 1985-01-01 give %s' % (case['tau0'][:3], got[:3], w0[:3])
+        if [Fraction(x) for x in res['gettimes']] != w0:
+            return 'coordutil.gettimes decodes tau0 %s to %s, expected %s' % (case['tau0'][:3], res['gettimes'][:3], w0[:3])
+        if [[Fraction(x) for x in row] for row in res['bnds']] != [[a, b] for a, b in zip(w0, w1)]:
+            return 'coordutil.gettimebnds decodes tau0/tau1 to %s, expected %s' % (res['bnds'][:2], [[a, b] for a, b in zip(w0, w1)][:2])
+        return None
     if k == 'tflag':
         if res.get('mutated'):
             return 'getTimes modified the TFLAG variable of the file'
@@ -530,6 +579,8 @@ def _oracle_cf(case, res):
         ef = [e.year, e.month, e.day, e.hour, e.minute, e.second, e.microsecond]
         if g != ef:
             return 'decoded %s but an independent CF implementation gives %s (%s, %s)' % (g, ef, units, cal)
+    if isinstance(res.get('dt64'), list) and res['dt64'] != res['dt64_want']:
+        return "getTimes(datetype='datetime64[us]') gives other instants than getTimes(): %s vs %s" % (res['dt64'][:3], res['dt64_want'][:3])
     if case['bnd'] == 'none':
         if res.get('back') != case['vals']:
             return 'date2num(getTimes()) = %s, stored values %s' % (str(res.get('back'))[:80], case['vals'][:3])
